@@ -154,6 +154,10 @@ var richKeys = []string{
 	"lp/" + strings.Repeat("p", 210) + "-one", "lp/" + strings.Repeat("p", 210) + "-two",
 }
 
+// rawKeyFamily: keys that differ only in bytes that are not valid UTF-8
+// (written with the plan's byte escape), and what a sanitiser would make of them
+var rawKeyFamily = []string{`r\xe9sum\xe9.txt`, `r\xe8sum\xe8.txt`, `r_sum_.txt`, `r\xff\xfesum.txt`, "r\uFFFDsum\uFFFD.txt"}
+
 var confusable = [][]string{
 	{"reports/2024", "reports_2024", "reports-2024", "reports\\2024", "reports%2F2024", "reports 2024", "reports+2024", "Reports/2024", "reports/2024 "},
 	{"a/b/c", "a\\b\\c", "a/b\\c", "a_b_c", "a\\b/c", "A/B/C"},
@@ -249,7 +253,14 @@ func (g *G) genC01(p *Plan) {
 	if g.chance(0.25) {
 		// keys that a normalising step (of separators, of case, of escapes)
 		// would take for one another: each is a key of its own
-		fam := confusable[g.rng.Intn(len(confusable))]
+		var fam []string
+		if fi := g.rng.Intn(len(confusable) + 1); fi == len(confusable) {
+			// ... and keys that are not valid UTF-8 (a key is a byte string)
+			c.RawKeys = true
+			fam = rawKeyFamily
+		} else {
+			fam = confusable[fi]
+		}
 		keys = append([]string{}, fam...)
 		g.rng.Shuffle(len(keys), func(i, j int) { keys[i], keys[j] = keys[j], keys[i] })
 		keys = keys[:g.n(2, 3)]
@@ -328,7 +339,7 @@ func (g *G) genC01(p *Plan) {
 			}
 			ops = append(ops, rd)
 		}
-		if g.chance(0.3) {
+		if g.chance(0.3) && !c.RawKeys {
 			ops = append(ops, Op{K: "list", B: c.Buckets[0]})
 		}
 	}
